@@ -15,6 +15,7 @@ import (
 	"strconv"
 	"strings"
 	"sync"
+	"time"
 
 	jsonpatch "github.com/evanphx/json-patch"
 	corev1 "k8s.io/api/core/v1"
@@ -56,7 +57,8 @@ func gvrOfKind(kind string) schema.GroupVersionResource {
 }
 
 type logEntry struct {
-	Seq  int64 // simulator event sequence number of the acknowledgement
+	Seq  int64         // simulator event sequence number of the acknowledgement
+	At   time.Duration // simulated time of the acknowledgement
 	RV   uint64
 	Type watch.EventType // Added / Modified / Deleted at cluster level
 	GVR  schema.GroupVersionResource
@@ -112,12 +114,13 @@ type APIServer struct {
 	nwatch  map[string]int
 	Lists   []listRecord
 	// fault knobs (consumed by reactors)
-	FailList        map[string]int // resource -> remaining list failures
-	FailWrite       map[string]int // verb -> remaining write failures
-	FailWriteName   map[string]int // object name -> remaining failures of writes to an object of that name
-	FaultedNames    map[string]int // object name -> write failures that fired
-	ConflictUpdates int            // remaining updates answered 409 Conflict (a concurrent writer got in between Get and Update)
-	By              string         // attribution of writes arriving through the reactors
+	FailList        map[string]int  // resource -> remaining list failures
+	FailWrite       map[string]int  // verb -> remaining write failures
+	FailWriteName   map[string]int  // object name -> remaining failures of writes to an object of that name
+	FaultedNames    map[string]int  // object name -> write failures that fired
+	ConflictUpdates int             // remaining updates answered 409 Conflict (a concurrent writer got in between Get and Update)
+	SlowDeleteNames map[string]bool // ns/name of objects whose next delete leaves them terminating for a while (finalizers, dependents); the fake client does not pass DeleteOptions on, so the workload names the objects it deletes in the foreground
+	By              string          // attribution of writes arriving through the reactors
 	Obs             *Observer
 	compactRV       uint64 // watches from an rv below this get 410 Gone
 }
@@ -127,7 +130,7 @@ func okey(gvr schema.GroupVersionResource, ns, name string) string {
 }
 
 func NewAPIServer(e *Env, fc *fake.Cluster) *APIServer {
-	a := &APIServer{e: e, cur: map[string]*unstructured.Unstructured{}, nwatch: map[string]int{}, FailList: map[string]int{}, FailWrite: map[string]int{}, FailWriteName: map[string]int{}, FaultedNames: map[string]int{}, By: "patcher"}
+	a := &APIServer{e: e, cur: map[string]*unstructured.Unstructured{}, nwatch: map[string]int{}, FailList: map[string]int{}, FailWrite: map[string]int{}, FailWriteName: map[string]int{}, SlowDeleteNames: map[string]bool{}, FaultedNames: map[string]int{}, By: "patcher"}
 	dyn := fc.Client.Dynamic().(*fakedynamic.FakeDynamicClient)
 	dyn.PrependReactor("*", "*", a.react)
 	dyn.PrependWatchReactor("*", a.reactWatch)
@@ -143,7 +146,7 @@ func (a *APIServer) record(t watch.EventType, gvr schema.GroupVersionResource, o
 	a.rv++
 	o := obj.DeepCopy()
 	o.SetResourceVersion(strconv.FormatUint(a.rv, 10))
-	ent := logEntry{Seq: a.e.Seq(), RV: a.rv, Type: t, GVR: gvr, Obj: o, By: by}
+	ent := logEntry{Seq: a.e.Seq(), At: a.e.Since(), RV: a.rv, Type: t, GVR: gvr, Obj: o, By: by}
 	a.Log = append(a.Log, ent)
 	k := okey(gvr, o.GetNamespace(), o.GetName())
 	if t == watch.Deleted {
@@ -449,6 +452,25 @@ func (a *APIServer) react(action ktesting.Action) (bool, runtime.Object, error) 
 		o, ok := a.cur[okey(gvr, act.GetNamespace(), act.GetName())]
 		if !ok {
 			return true, nil, apierrors.NewNotFound(gvr.GroupResource(), act.GetName())
+		}
+		if a.SlowDeleteNames[act.GetNamespace()+"/"+act.GetName()] && o.GetDeletionTimestamp() == nil {
+			// the object is only marked: it stays visible (terminating) and goes away later
+			delete(a.SlowDeleteNames, act.GetNamespace()+"/"+act.GetName())
+			simrt.Count("fault:slow-foreground-delete")
+			t := o.DeepCopy()
+			now := metav1.NewTime(time.Unix(1700000000, 0))
+			t.SetDeletionTimestamp(&now)
+			a.record(watch.Modified, gvr, t, "terminating")
+			ns, name, by := act.GetNamespace(), act.GetName(), a.By
+			simrt.GoNamed("terminator:"+name, func() {
+				simrt.Sleep(2500 * time.Millisecond)
+				a.mu.Lock()
+				if cur, ok := a.cur[okey(gvr, ns, name)]; ok && cur.GetDeletionTimestamp() != nil {
+					a.record(watch.Deleted, gvr, cur, by)
+				}
+				a.mu.Unlock()
+			})
+			return true, nil, nil
 		}
 		a.record(watch.Deleted, gvr, o, a.By)
 		return true, nil, nil
